@@ -28,6 +28,7 @@ def run(prog, chk):
     C.lockstep_equality(prog, chk, "C03.g", ("List",))
     sort_early_out(prog, chk, "C03.i")
     C.counting_against_moving_bound(prog, chk, "C03.j", SEQ + ("Array",))
+    array_blocks_cover_capacity(prog, chk, "C03.k")
     # `a.append(a)` / `l.append(l)` / `a.append(a[0])` are operation histories of this property as well: the argument is part of the
     # sequence that the operation reallocates or grows (rule shared with C04.e)
     c04_alias.alias_rules(prog, chk, "C03.h")
@@ -128,3 +129,60 @@ def sort_early_out(prog, chk, rid):
                     "List::sort on a list of %d element(s): %s - the list [b, a] stays as it is, not the ascending permutation" % bad, evals=4)
         else:
             chk.ok(rid, f, "lists of 2 and 3 elements reach the partitioning routine", where, "early-out evaluated for 0..3 elements", evals=4)
+
+
+def array_blocks_cover_capacity(prog, chk, rid):
+    """Array trusts `_capacity`: append() constructs behind the last element without looking at the block as long as size < _capacity.
+    Wherever a member other than reserve() allocates the element block itself (a constructor that allocates eagerly, a copy), the block
+    has to hold at least as many elements as `_capacity` says when the member returns - evaluated for several argument values."""
+    import re
+    from .. import fin, q
+    from ..facts import AnalysisBroken
+    chk.rule(rid, "FIN: every Array member outside reserve() that allocates element storage leaves `_capacity` no larger than the number of "
+                  "elements the block it allocated can hold (evaluated for argument values 0, 1, 4, 5, 7)", floor=0)
+    n = 0
+    for tn, fs in sorted(C.class_insts(prog, "Array").items()):
+        for f in [g for g in fs if g.blocks and g.short != "reserve"]:
+            news = [i for i, x in enumerate(f.nodes) if x["k"] == "CXXNewExpr" and x.get("arr") and "asize" in x and f.node_pos(i) is not None]
+            if not news:
+                continue
+            unit = None
+            for x in f.desc(f.nodes[news[0]]["asize"]):
+                if f.nodes[x]["k"] == "UnaryExprOrTypeTraitExpr" and "cv" in f.nodes[x]:
+                    unit = f.nodes[x]["cv"]
+            ints = [p_["n"] for p_ in f.params if re.search(r"unsigned long|usize|int", p_.get("t") or "") and "*" not in (p_.get("t") or "") and "&" not in (p_.get("t") or "")]
+            if not unit or not ints:
+                continue
+            n += 1
+            inits = [w for w in q.field_writes(f, "_capacity", "this") if w.node is None and w.rhs is not None]      # constructor initialisers
+            bad = None
+            for v in (0, 1, 4, 5, 7):
+                val = {p_: v for p_ in ints}
+                val.update({"this->_capacity": 0, "this->_begin.item": 0, "this->_end.item": 0})
+                for w in inits:
+                    c0 = fin.eval_expr(f, w.rhs, val)
+                    if c0 is not None:
+                        val["this->_capacity"] = c0
+                got = {}
+
+                def trace(e, v_, _g=got):
+                    if e in news:
+                        _g["bytes"] = fin.eval_expr(f, f.nodes[e]["asize"], v_)
+                seen, end, fv = fin.walk_vals(f, f.entry, val, limit=300, assume=lambda k_: 0, trace=trace)
+                cap = fv.get("this->_capacity")
+                if "bytes" not in got:
+                    continue
+                if got["bytes"] is None or cap is None:
+                    bad = (v, "the block size or the capacity could not be evaluated")
+                    break
+                if got["bytes"] // unit < cap:
+                    bad = (v, "a block for %d element(s) is allocated while _capacity becomes %d" % (got["bytes"] // unit, cap))
+                    break
+            if bad:
+                chk.bad(rid, f, "capacity-exceeds-block", f.where(news[0]),
+                        "%s(%d): %s - append() constructs up to _capacity elements without reallocating, the last ones behind the block" % (
+                            f.short, bad[0], bad[1]), evals=5)
+            else:
+                chk.ok(rid, f, "block covers _capacity for 5 argument values", f.where(news[0]), "evaluation", evals=5)
+    if not n:
+        chk.ok(rid, "Array", "only reserve() allocates element storage (checked by C04.arr)", "", "scan of new-expressions", nontrivial=False)
